@@ -5,7 +5,7 @@
 
    Shaped like the Go code: the same comparisons in the same order, the same early returns, the
    same result values (a boolean, an error, or nil).  Where the code is wrong the model is wrong
-   the same way (see [token_set_txn] and [autopilot_cas]).  std++ style.  No proofs in this file.
+   the same way (see [token_set_txn]).  std++ style.  No proofs in this file.
 
    Sources: agent/consul/state/{config_entry,connect_ca,autopilot,acl,feature_gate}.go.
    Abstractions: payloads the property does not look inside are numbers (protocol / meta value /
@@ -24,6 +24,7 @@ Inductive err :=
 | EGraph            (* validateProposedConfigEntryInGraph rejected the proposed table *)
 | ECAConfigIndex    (* "ModifyIndex did not match existing" *)
 | EActiveRoots      (* "there must be exactly one active CA" *)
+| EActiveReplaced   (* "the active CA root %q is replaced by a later entry with the same ID" *)
 | ERootID           (* ErrMissingCARootID *)
 | ENoSecret         (* ErrMissingACLTokenSecret *)
 | ENoAccessor       (* ErrMissingACLTokenAccessor *)
@@ -170,6 +171,14 @@ Definition rootreq := (string * bool)%type.    (* (ID, Active) *)
 
 Definition count_active (rs : list rootreq) : nat := List.length (filter (fun r => r.2 = true) rs).
 
+(* rows are keyed by ID: the active root must be the last entry with its ID, or the stored set
+   would have no active root (the loop over "last[r.ID] != r") *)
+Fixpoint active_overwritten (rs : list rootreq) : bool :=
+  match rs with
+  | [] => false
+  | r :: rest => (r.2 && existsb (fun r' => bool_decide (r'.1 = r.1)) rest) || active_overwritten rest
+  end.
+
 (* "Insert all": a later root with the same ID replaces an earlier one; CreateIndex was looked up in
    the table as it was before "Delete all" *)
 Definition insert_roots (idx : N) (old : gmap string root) (rs : list rootreq) : gmap string root :=
@@ -178,6 +187,7 @@ Definition insert_roots (idx : N) (old : gmap string root) (rs : list rootreq) :
 (* caRootCheckAndSetTxn *)
 Definition ca_root_check_and_set (idx cidx : N) (rs : list rootreq) (s : st) : attempt :=
   if negb (bool_decide (count_active rs = 1%nat)) then Failed EActiveRoots
+  else if active_overwritten rs then Failed EActiveReplaced
   else if negb (bool_decide (max_index ix_roots s = cidx)) then Mismatch
   else if existsb (fun r => bool_decide (r.1 = "")) rs then Failed ERootID
   else Applied (index_set ix_roots idx (s <| ca_roots := insert_roots idx (ca_roots s) rs |>)).
@@ -199,11 +209,11 @@ Definition ca_roots_and_config_cas (idx cidx : N) (rs : list rootreq) (cluster :
 Definition autopilot_set_txn (idx payload : N) (s : st) : st :=
   s <| autopilot := Some (AP payload (match autopilot s with Some e => ap_create e | None => idx end) idx) |>.
 
-(* AutopilotCASConfig: "if !ok || e.ModifyIndex != cidx { return false, nil }" -- an absent
-   configuration refuses every index, zero included *)
+(* AutopilotCASConfig: "if (ok && e.ModifyIndex != cidx) || (!ok && cidx != 0) { return false, nil }"
+   -- expected index zero creates the configuration when none is stored *)
 Definition autopilot_cas (idx cidx payload : N) (s : st) : attempt :=
   match autopilot s with
-  | None => Mismatch
+  | None => if negb (bool_decide (cidx = 0)) then Mismatch else Applied (autopilot_set_txn idx payload s)
   | Some e => if negb (bool_decide (ap_modify e = cidx)) then Mismatch else Applied (autopilot_set_txn idx payload s)
   end.
 
